@@ -621,6 +621,25 @@ func main() {
 					h.Emit("commit", e.apply("commit"))
 				}
 			}
+			if len(e.handles) == 0 && e.mode == "" && s%4 == 1 {
+				// transactions that make exactly ONE modification each (a commit must not depend on what else was written):
+				// removal of an empty bucket holding empty buckets, of a non-empty one, of a key; one new bucket; one put; one clear
+				x := hx.Hex([]byte("x"))
+				hexs := func(v string) string { return hx.Hex([]byte(v)) }
+				pre := []string{"begin", "ctop " + x, "new 0 " + hexs("e"), "new 1 " + hexs("f"), "new 2 " + hexs("ff"), "new 0 " + hexs("g"), "put 4 " + hexs("k") + " " + hexs("v"),
+					"new 0 " + hexs("c"), "put 5 " + hexs("k1") + " " + hexs("v1"), "put 0 " + hexs("k0") + " " + hexs("v0"), "commit"}
+				singles := [][]string{{"delb 0 " + hexs("e")}, {"delb 0 " + hexs("g")}, {"del 0 " + hexs("k0")}, {"new 0 " + hexs("n")}, {"put 0 " + hexs("k2") + " " + hexs("v2")},
+					{"sub 0 " + hexs("c"), "clear 1"}, {"sub 0 " + hexs("n"), "new 1 " + hexs("m")}, {"sub 0 " + hexs("n"), "delb 1 " + hexs("m")}, {"delb 0 " + hexs("n")}}
+				h.Rng.Shuffle(3, func(i, j int) { singles[i], singles[j] = singles[j], singles[i] })
+				for _, op := range pre {
+					h.Emit(op, e.apply(op))
+				}
+				for _, one := range singles {
+					for _, op := range append(append([]string{"begin", "top " + x}, one...), "commit", "rbegin", "top "+x, "names 0", "sub 0 "+hexs("e"), "sub 0 "+hexs("g"), "sub 0 "+hexs("n"), "get 0 "+hexs("k0"), "rend") {
+						h.Emit(op, e.apply(op))
+					}
+				}
+			}
 			n := 5 + h.Rng.Intn(h.Len)
 			for i := 0; i < n; i++ {
 				op := e.genOp()
